@@ -6,13 +6,10 @@ CONSTANTS
   DNames <- MCDNames
   ValueOf <- MCValueOf
   InputOf <- MCInputOf
-  MaxLen = 4
+  MaxLen = 5
   CacheMode = "own"
   Codecs = FALSE
-  LazyC = FALSE
-  LazyInner = FALSE
-  Mixin = "dict"
-  KwFlags = FALSE
+  Lazy = TRUE
   FmtsOf <- MCFmtsOf
   KwNames <- MCKwNames
   SpecKeyMode = "exact"
@@ -20,7 +17,5 @@ INIT Init
 NEXT Next
 INVARIANT Faithful
 INVARIANT CacheOwn
-INVARIANT IsolationEq
 INVARIANT EmitTables
 INVARIANT EmitInv
-PROPERTY CodecPure
